@@ -62,7 +62,37 @@ def monitor (rep : Report) (ln : Nat) (op : String) (a : List (String × String)
 structure Sess where
   model : Option St := none
   lastImpl : String := ""          -- the implementation's digest after the previous operation
+  ready : List (String × Bool) := []   -- connectivity of each endpoint's pool, as the harness last set it
   deriving Inhabited
+
+/-- the printed MultiEndpoints: (name, current, [(endpoint, status letter)]) -/
+def parseMes (dg : String) : List (String × String × List (String × String)) :=
+  let o := args (dg.splitOn " ")
+  ((arg o "mes").splitOn ";").filterMap fun item =>
+    match item.splitOn ":" with
+    | [name, cur, eps] =>
+      some (name, cur, (eps.splitOn "+").filterMap fun e =>
+        match e.splitOn "/" with
+        | [id, _, st] => some (id, st)
+        | _ => none)
+    | _ => none
+
+/-- C15: every MultiEndpoint reflects the connectivity of the pools: an endpoint whose pool is
+    READY is available, one whose pool is not is unavailable or inside its recovery window -/
+def reflectsPools (ready : List (String × Bool)) (dg : String) : Bool :=
+  (parseMes dg).all fun (_, _, eps) => eps.all fun (id, st) =>
+    match ready.find? (fun p => p.1 == id) with
+    | some (_, true) => st == "A"
+    | _ => st != "A"
+
+/-- C15: the pool an RPC must use, read off the printed state -/
+def expectedPool (dg : String) (name : Option String) : Option String :=
+  let mes := parseMes dg
+  let o := args (dg.splitOn " ")
+  let byName (n : String) := (mes.find? fun m => m.1 == n).map fun m => m.2.1
+  match name.bind byName with
+  | some cur => some cur
+  | none => byName (arg o "default")
 
 def handle (sess : Sess) (rep : Report) (ln : Nat) (toks : List String) (obs : String) : Sess × Report :=
   let a := args toks.tail
@@ -73,6 +103,29 @@ def handle (sess : Sess) (rep : Report) (ln : Nat) (toks : List String) (obs : S
   let rep := if op == "upd" && obs.startsWith "err" && sess.lastImpl != "" && implDigest != sess.lastImpl
              then fail rep ln "C16" "failed_update_is_identity" else rep
   let rep := if op == "upd" && obs.startsWith "err" then rep.bump "gme.update_rejected" else rep
+  -- the harness's own record of pool connectivity: new pools start without connectivity, pstate sets it
+  let sess := match op with
+    | "pstate" => if obs.startsWith "ok" then { sess with ready := (sess.ready.filter fun p => p.1 != arg a "e") ++ [(arg a "e", arg a "ready" == "1")] } else sess
+    | "new" => { sess with ready := [] }
+    | _ => sess
+  let sess := if (op == "new" || op == "upd") && obs.startsWith "ok" then
+      -- pools that were closed lose their record
+      let pools := plusList (arg (args (implDigest.splitOn " ")) "pools")
+      { sess with ready := sess.ready.filter fun p => pools.contains p.1 }
+    else sess
+  -- C15 "every MultiEndpoint already reflects the connectivity of the kept pools when the call
+  -- returns": the pools of this harness never have real connectivity (`pstate` only delivers a
+  -- notification), and the status sync at the end of an update re-reads the real state — so right
+  -- after a successful update no endpoint of any MultiEndpoint may still count as available
+  let rep := if (op == "new" || op == "upd") && obs.startsWith "ok" && implDigest != "" &&
+      !((parseMes implDigest).all fun (_, _, eps) => eps.all fun (_, st) => st != "A")
+    then fail rep ln "C15" "reflects_pool_connectivity" else rep
+  let rep := if op == "rpc" && sess.lastImpl != "" && obs.startsWith "pool=" then
+      let name := if arg a "name" == "-" then none else some (arg a "name")
+      match expectedPool sess.lastImpl name with
+      | some e => if obs == s!"pool={e}" then rep else fail rep ln "C15" "rpc_routes_current"
+      | none => rep
+    else rep
   let sess := if implDigest != "" then { sess with lastImpl := implDigest } else sess
   let diverge (mine : String) : Sess × Report :=
     ({ sess with model := none }, { rep.msg s!"DIVERGE line={ln} model={mine} impl={obs}" with diverged := rep.diverged + 1 })
